@@ -194,7 +194,7 @@ def m_vec_swap_remove(ex, a, t):
 def m_tx_send(ex, a, t):
     tx = target(a[0])
     if hasattr(ex, 'on_send'): pass
-    if not tx.ch.rx_alive: return Enum('Result', 'Err', [Struct('SendError', [a[1]])])
+    if not tx.ch.rx_alive or getattr(tx.ch, 'closed', False): return Enum('Result', 'Err', [Struct('SendError', [a[1]])])
     tx.ch.q.append(a[1])
     if getattr(ex, 'after_send', None): ex.after_send(tx.ch)
     return Enum('Result', 'Ok', [UNIT])
@@ -420,8 +420,11 @@ def m_pin_get_mut(ex, a, t): return a[0]
 def m_poll_recv(ex, a, t):
     rx = target(a[0])
     if rx.ch.q: return Enum('Poll', 'Ready', [Enum('Option', 'Some', [rx.ch.q.pop(0)])])
-    if not rx.senders_alive or (rx.ch.track and rx.ch.senders == 0): return Enum('Poll', 'Ready', [Enum('Option', 'None')])
+    if not rx.senders_alive or (rx.ch.track and rx.ch.senders == 0) or getattr(rx.ch, 'closed', False): return Enum('Poll', 'Ready', [Enum('Option', 'None')])
     return Enum('Poll', 'Pending')
+def m_rx_close(ex, a, t):
+    # UnboundedReceiver::close: further sends fail, what is queued can still be received, then the stream ends
+    target(a[0]).ch.closed = True; return UNIT
 def m_oneshot_send(ex, a, t): a[0].sent = a[1]; return Enum('Result', 'Ok', [UNIT])
 def m_sleep(ex, a, t): return SleepObj(ex.clock + a[0])
 def m_box_pin(ex, a, t): return BoxObj(a[0])
@@ -447,7 +450,7 @@ MODELS[:0] = [
     (r'^<dyn Service<.*>::poll_ready$', m_dyn_poll_ready), (r'^<dyn Service<.*>::call$', m_dyn_call),
     (r'^<dyn InternalServiceFactory as InternalServiceFactory>::create$', m_dyn_create),
     (r'^<dyn (futures_core::)?Future<.*>::poll$', m_dyn_fut_poll), (r'^Pin::<.*>::as_mut$', m_pin_as_mut), (r'^Pin::<.*>::get_mut$', m_pin_get_mut),
-    (r'UnboundedReceiver::<.*>::poll_recv$', m_poll_recv), (r'oneshot::Sender::<.*>::send$', m_oneshot_send),
+    (r'UnboundedReceiver::<.*>::poll_recv$', m_poll_recv), (r'UnboundedReceiver::<.*>::close$', m_rx_close), (r'oneshot::Sender::<.*>::send$', m_oneshot_send),
     (r'actix_rt::time::sleep$', m_sleep), (r'^Box::<.*>::pin$', m_box_pin), (r'^<Sleep as (futures_core::)?Future>::poll$', m_sleep_poll), (r'^Sleep::reset$', m_sleep_reset),
     (r'^Duration::from_secs$', m_dur_secs), (r'Instant::elapsed$', m_elapsed), (r'^<Duration as PartialOrd>::ge$', m_dur_ge),
     (r'^std::mem::take::<WorkerState>$', m_mem_take), (r'Ready::<.*>::into_inner$', m_ready_into_inner),
@@ -468,7 +471,18 @@ def m_hm_remove(ex, a, t):
     d = target(a[0]); k = key_of(ex, target(a[1])); old = d.d.pop(k, None)
     return Enum('Option', 'Some', [old]) if old is not None else Enum('Option', 'None')
 def m_hm_values(ex, a, t):
-    d = target(a[0]); return IterObj([Ref(LCell(Cell(v))) for k, v in sorted(d.d.items())])
+    # HashMap iteration order is unspecified: every permutation of the entries is a solver choice (maps here hold <= 3 entries)
+    d = target(a[0]); items = sorted(d.d.items())
+    forced = getattr(ex, 'forced_orders', None)
+    if forced and len(items) >= 2:
+        o = forced.pop(0); items = sorted(items, key=lambda kv: o.index(str(kv[0])) if str(kv[0]) in o else 99)
+    elif len(items) >= 2 and getattr(ex, 'hash_order_choice', True):
+        import itertools
+        perms = list(itertools.permutations(range(len(items))))
+        if len(perms) > 6: raise Unknown('HashMap::values over %d entries' % len(items))
+        p = ex.pick('hash_order', perms); items = [items[i] for i in p]
+        if hasattr(ex, 'hist'): ex.hist.append('order:' + ''.join(str(k) for k, _ in items))
+    return IterObj([Ref(LCell(Cell(v))) for k, v in items])
 def m_pin_deref_mut(ex, a, t): return target(a[0])
 MODELS[:0] = [(r'HashMap::<.*>::insert$', m_hm_insert), (r'HashMap::<.*>::remove::<', m_hm_remove), (r'HashMap::<.*>::values$', m_hm_values),
               (r'^<Pin<&mut .*> as DerefMut>::deref_mut$', m_pin_deref_mut)]
